@@ -142,3 +142,404 @@ mod verif_c07 {
   }
   // VERIF-END verif_c07
 }
+
+#[cfg(all(kani, verif_c08))]
+mod verif_c08 {
+  use super::*;
+  use super::verif_core::*;
+  use crate::vassert;
+  use crate::verif::{vstub, cpuh};
+
+  /// Reference control machine of the statement: IME in {0 off, 1 pending (EI executed), 2 on}, run in {0 run, 1 halt, 2 stop}.
+  #[derive(Clone, Copy)]
+  struct RefCtl { ime: u8, run: u8, iflag: u8, ie: u8, pc: u16, sp: u16, dispatched: bool }
+
+  /// letters: 0 EI, 1 DI, 2 RETI, 3 HALT, 4 STOP, 5 NOP, 6 LDH (0x0F),A (raise IF), 7 LDH (0xFF),A (write IE)
+  fn letter_bytes(l: u8) -> [u8; 3] {
+    match l { 0 => [0xfb, 0, 0], 1 => [0xf3, 0, 0], 2 => [0xd9, 0, 0], 3 => [0x76, 0, 0], 4 => [0x10, 0, 0], 5 => [0x00, 0, 0], 6 => [0xe0, 0x0f, 0], _ => [0xe0, 0xff, 0] }
+  }
+
+  fn ref_step(mut s: RefCtl, l: u8, a: u8, ret_addr: u16) -> RefCtl {
+    s.dispatched = false;
+    if s.run == 0 {
+      // the instruction after EI has now completed: the pending enable takes effect, before this instruction's own effect
+      if s.ime == 1 { s.ime = 2; }
+      match l {
+        0 => { if s.ime == 0 { s.ime = 1; } s.pc = s.pc.wrapping_add(1); }
+        1 => { s.ime = 0; s.pc = s.pc.wrapping_add(1); }
+        2 => { s.ime = 2; s.pc = ret_addr; s.sp = s.sp.wrapping_add(2); }
+        3 => { s.run = 1; s.pc = s.pc.wrapping_add(1); }
+        4 => { s.run = 2; s.pc = s.pc.wrapping_add(2); }
+        5 => { s.pc = s.pc.wrapping_add(1); }
+        6 => { s.iflag = a & 0x1f; s.pc = s.pc.wrapping_add(2); }
+        _ => { s.ie = a & 0x1f; s.pc = s.pc.wrapping_add(2); }
+      }
+    }
+    // interrupt check after every step (also while halted / stopped)
+    let pending = s.iflag & s.ie;
+    if pending != 0 {
+      s.run = 0;
+      if s.ime == 2 {
+        let (vec, clear) = vector_of(pending);
+        s.ime = 0;
+        s.sp = s.sp.wrapping_sub(2);
+        s.pc = vec as u16;
+        s.iflag &= !clear;
+        s.dispatched = true;
+      }
+    }
+    s
+  }
+
+  /// One `Core::update()` from an arbitrary control state with the given instruction at PC.
+  fn step(l: u8) {
+    let ime: u8 = kani::any::<u8>() % 3;
+    let run: u8 = kani::any::<u8>() % 3;
+    let if0: u8 = kani::any::<u8>() & 0x1f;
+    let ie0: u8 = kani::any::<u8>() & 0x1f;
+    let a: u8 = kani::any();
+    let ret_lo: u8 = kani::any();
+    let ret_hi: u8 = kani::any();
+    // excluded by the property: HALT executed while an enabled interrupt is already pending
+    if l == 3 && run == 0 { kani::assume(if0 & ie0 == 0); }
+    let pc: u16 = 0x0150;
+    let sp: u16 = 0xdff0;
+    let mut c = core_with(ime, run, if0, ie0);
+    c.registers.ip = pc as u32;
+    c.registers.sp = sp as u32;
+    c.registers.af = (a as u32) << 8;
+    // return address for RETI on the stack; instruction bytes at PC (the fetch stub serves the same bytes under Kani)
+    let mp = &mut c.memory as *mut MemoryAreas;
+    crate::mem::memory_write_byte(mp, sp, ret_lo);
+    crate::mem::memory_write_byte(mp, sp.wrapping_add(1), ret_hi);
+    let code = letter_bytes(l);
+    c.memory.rom[pc as usize] = code[0]; c.memory.rom[pc as usize + 1] = code[1]; c.memory.rom[pc as usize + 2] = code[2];
+    cpuh::set_code(code);
+    let s0 = RefCtl { ime, run, iflag: if0, ie: ie0, pc, sp, dispatched: false };
+    let want = ref_step(s0, l, a, ((ret_hi as u16) << 8) | ret_lo as u16);
+    c.update();
+    let (ip1, sp1) = (c.registers.ip, c.registers.sp);
+    vassert!(ime_of(&c) == want.ime, "C08.step.master_enable");
+    vassert!(run_of(&c) == want.run, "C08.step.run_state");
+    vassert!(ip1 == want.pc as u32, "C08.step.pc");
+    vassert!(sp1 == want.sp as u32, "C08.step.sp");
+    vassert!(c.memory.io.interrupt_flag.as_u8() == want.iflag, "C08.step.if");
+    vassert!(c.memory.io.interrupt_mask == want.ie, "C08.step.ie");
+    // never a dispatch while the master enable is off
+    if want.dispatched {
+      vassert!(s0.ime == 2 || (s0.ime == 1 && s0.run == 0) || l == 2, "C08.dispatch_only_with_master_enable");
+      let mp = &c.memory as *const MemoryAreas;
+      // the pushed return address is the instruction following the one that just ran (or the halted PC)
+      let pushed = (crate::mem::memory_read_byte(mp, want.sp) as u16) | ((crate::mem::memory_read_byte(mp, want.sp.wrapping_add(1)) as u16) << 8);
+      let resume = if s0.run != 0 { pc } else { ref_step(RefCtl { iflag: 0, ie: 0, ..s0 }, l, a, ((ret_hi as u16) << 8) | ret_lo as u16).pc };
+      vassert!(pushed == resume, "C08.dispatch.return_address");
+    }
+    kani::cover!(want.dispatched, "reached");
+    core::mem::forget(c);
+  }
+
+  macro_rules! c08 {
+    ($name:ident, $l:expr) => {
+      #[kani::proof]
+      #[kani::unwind(8)]
+      #[kani::stub(crate::system::get_rom_buffer, vstub::stub_get_rom_buffer)]
+      #[kani::stub(crate::mem::create_buffer, vstub::stub_create_buffer)]
+      #[kani::stub(crate::devices::video::lcd::LCD::new, vstub::stub_lcd_new)]
+      #[kani::stub(crate::mem::get_executable_memory_slice, cpuh::stub_fetch)]
+      #[kani::stub(<std::io::Stdout as std::io::Write>::write, vstub::stub_stdout_write)]
+      #[kani::stub(<std::io::Stdout as std::io::Write>::flush, vstub::stub_stdout_flush)]
+      fn $name() { step($l); }
+    };
+  }
+  c08!(c08_step_ei, 0);
+  c08!(c08_step_di, 1);
+  c08!(c08_step_reti, 2);
+  c08!(c08_step_halt, 3);
+  c08!(c08_step_stop, 4);
+  c08!(c08_step_nop, 5);
+  c08!(c08_step_raise_if, 6);
+  c08!(c08_step_write_ie, 7);
+
+  #[kani::proof]
+  #[kani::unwind(8)]
+  #[kani::stub(crate::system::get_rom_buffer, vstub::stub_get_rom_buffer)]
+  #[kani::stub(crate::mem::create_buffer, vstub::stub_create_buffer)]
+  #[kani::stub(crate::devices::video::lcd::LCD::new, vstub::stub_lcd_new)]
+  #[kani::stub(crate::mem::get_executable_memory_slice, cpuh::stub_fetch)]
+  fn c08_witness_must_fail() {
+    let mut c = core_with(kani::any(), 0, kani::any(), kani::any());
+    c.registers.ip = 0x150; c.registers.sp = 0xdff0;
+    cpuh::set_code([0xfb, 0, 0]);
+    c.update();
+    core::mem::forget(c);
+    assert!(false, "C08.witness");
+  }
+  // VERIF-END verif_c08
+}
+
+#[cfg(all(kani, verif_c03, feature = "jit"))]
+mod verif_c03 {
+  use super::*;
+  use crate::vassert;
+  use crate::verif::vstub;
+  use crate::cart::Header;
+  use crate::cache::verif_monitor as mon;
+
+  fn noop_clock(_m: &mut MemoryAreas, _c: ClockCycles) {}
+
+  /// L2 (glue invariant): whenever the cache is consulted for an address in 0x4000-0x7fff, the tag of the switchable
+  /// region equals the bank mapped at that moment.  Pre-state satisfies the invariant; the executed block performs an
+  /// arbitrary bank-register write; the NEXT step's lookup must still satisfy it (inductive step over histories).
+  fn glue(kind: u8) {
+    let cart_type = if kind == 1 { let s: u8 = kani::any(); kani::assume(s >= 1 && s <= 3); s } else { let s: u8 = kani::any(); kani::assume(s >= 0x11 && s <= 0x13); s };
+    let h = Header::verif_with(cart_type, kani::any(), 0);
+    let mut memory = crate::mem::verif_areas(&h);
+    let p = &mut memory as *mut MemoryAreas;
+    crate::mem::memory_write_byte(p, 0x2000, kani::any());
+    crate::mem::memory_write_byte(p, 0x4000, kani::any());
+    crate::mem::memory_write_byte(p, 0x6000, kani::any());
+    let mut c = Core { cache: CodeCache::verif_new(64), registers: Registers::new(), last_block_cycle_length: 0, memory,
+                       interrupts_enabled: InterruptState::Disabled, run_state: RunState::Run };
+    // invariant in the pre-state
+    c.cache.verif_set_rom_high_bank(c.memory.get_rom_bank() as u16);
+    let ip0: u16 = kani::any();
+    let ip1: u16 = kani::any();
+    kani::assume(ip0 < 0x8000 && ip1 < 0x8000);
+    c.registers.ip = ip0 as u32;
+    let wa: u16 = kani::any();
+    kani::assume(wa < 0x8000);
+    unsafe {
+      mon::MEM = &mut c.memory as *mut MemoryAreas;
+      mon::WRITE_ADDR = wa; mon::WRITE_VAL = kani::any(); mon::NEXT_IP = ip1 as u32; mon::ADD_CYCLES = 1; mon::STATUS = 0;
+      mon::TAG_OK = true; mon::LOOKUPS = 0;
+      mon::EXPECTED_BANK = c.memory.get_rom_bank();
+    }
+    c.run_code_block();
+    vassert!(unsafe { mon::TAG_OK }, "C03.glue.tag_matches_bank_at_first_lookup");
+    // second step: the bank may have been switched by the block that just ran
+    unsafe { mon::EXPECTED_BANK = c.memory.get_rom_bank(); mon::WRITE_ADDR = 0x0000; mon::WRITE_VAL = 0; }
+    c.run_code_block();
+    vassert!(unsafe { mon::TAG_OK }, "C03.glue.tag_follows_bank_switch");
+    vassert!(unsafe { mon::LOOKUPS } >= 2, "C03.glue.cache_consulted");
+    kani::cover!(ip1 >= 0x4000, "reached");
+    core::mem::forget(c);
+  }
+  macro_rules! glue {
+    ($name:ident, $k:expr) => {
+      #[kani::proof]
+      #[kani::unwind(6)]
+      #[kani::stub(crate::system::get_rom_buffer, vstub::stub_get_rom_buffer)]
+      #[kani::stub(crate::mem::create_buffer, vstub::stub_create_buffer)]
+      #[kani::stub(crate::devices::video::lcd::LCD::new, vstub::stub_lcd_new)]
+      #[kani::stub(crate::cache::CodeCache::get_address_for_ip, mon::get_address_for_ip)]
+      #[kani::stub(crate::cache::CodeCache::translate_code_block, mon::translate_code_block)]
+      #[kani::stub(crate::cache::CodeCache::call, mon::call)]
+      #[kani::stub(crate::interpreter::run_code_block, mon::interp_block)]
+      #[kani::stub(crate::mem::MemoryAreas::run_clock_cycles, noop_clock)]
+      fn $name() { glue($k); }
+    };
+  }
+  glue!(c03_glue_mbc1, 1);
+  glue!(c03_glue_mbc3, 3);
+
+  #[kani::proof]
+  #[kani::unwind(6)]
+  #[kani::stub(crate::system::get_rom_buffer, vstub::stub_get_rom_buffer)]
+  #[kani::stub(crate::mem::create_buffer, vstub::stub_create_buffer)]
+  #[kani::stub(crate::devices::video::lcd::LCD::new, vstub::stub_lcd_new)]
+  #[kani::stub(crate::cache::CodeCache::get_address_for_ip, mon::get_address_for_ip)]
+  #[kani::stub(crate::cache::CodeCache::translate_code_block, mon::translate_code_block)]
+  #[kani::stub(crate::cache::CodeCache::call, mon::call)]
+  #[kani::stub(crate::interpreter::run_code_block, mon::interp_block)]
+  #[kani::stub(crate::mem::MemoryAreas::run_clock_cycles, noop_clock)]
+  fn c03_witness_must_fail() {
+    glue(1);
+    assert!(false, "C03.witness");
+  }
+  // VERIF-END verif_c03
+}
+
+/// Shared monitors for the accounting (C09) and tail-equivalence (C04) harnesses.
+#[cfg(kani)]
+pub mod verif_glue {
+  use super::*;
+  use crate::devices::io::IO;
+  pub static mut DELIVERED: usize = 0x5a5a_0a0a_0a0a;
+  pub static mut DELIVER_CALLS: usize = 0x5a5a_0b0b_0b0b;
+  pub static mut SAMPLED_EARLY: bool = true;
+  pub static mut K: u32 = 0x6666_6666;
+  pub static mut OP_STATUS: u8 = 0x77;
+  pub static mut OP_BRK: bool = true;
+  pub static mut OP_NEXT_IP: u32 = 0x7878_7878;
+  pub fn reset(k: u32, status: u8, next_ip: u32) { unsafe { DELIVERED = 0; DELIVER_CALLS = 0; SAMPLED_EARLY = false; K = k; OP_STATUS = status; OP_BRK = kani::any(); OP_NEXT_IP = next_ip; } }
+  pub fn mon_clock(_m: &mut MemoryAreas, c: ClockCycles) { unsafe { DELIVERED += c.0; DELIVER_CALLS += 1; } }
+  pub fn mon_active(io: &IO) -> u8 { unsafe { if DELIVER_CALLS == 0 { SAMPLED_EARLY = true; } } io.interrupt_flag.as_u8() & io.interrupt_mask }
+  /// the CPU executor, cut to "consumes K >= 1 machine cycles, ends at OP_NEXT_IP, signals OP_STATUS"
+  pub fn stub_next_op(registers: &mut Registers, _mem: *mut MemoryAreas) -> Option<(u8, bool)> {
+    unsafe { registers.cycles += K; registers.ip = OP_NEXT_IP; Some((OP_STATUS, OP_BRK)) }
+  }
+  pub fn stub_block(registers: &mut Registers, _mem: *mut MemoryAreas) -> u8 {
+    unsafe { crate::cache::verif_monitor::ENTERED_INTERP = true; registers.cycles += K; registers.ip = OP_NEXT_IP; OP_STATUS }
+  }
+  pub fn stub_call(_c: &CodeCache, _offset: usize, registers: &mut Registers) -> u8 {
+    unsafe { registers.cycles += K; registers.ip = OP_NEXT_IP; OP_STATUS }
+  }
+}
+
+#[cfg(all(kani, any(verif_c09, verif_c04)))]
+mod verif_c09 {
+  use super::*;
+  use super::verif_core::*;
+  use super::verif_glue as g;
+  use crate::vassert;
+  use crate::verif::vstub;
+  use crate::cache::verif_monitor as mon;
+
+  /// `Core::update()`: clocks delivered to the devices = 4 x (pending + consumed) machine cycles, delivered once and
+  /// before interrupts are sampled; a halted step delivers exactly 4; a dispatch leaves exactly 5 cycles pending.
+  fn accounting(ip: u16) {
+    let ime: u8 = kani::any::<u8>() % 3;
+    let run: u8 = kani::any::<u8>() % 3;
+    let if0: u8 = kani::any::<u8>() & 0x1f;
+    let ie0: u8 = kani::any::<u8>() & 0x1f;
+    let p: u32 = (kani::any::<u8>() & 0x3f) as u32;
+    let k: u32 = kani::any::<u8>() as u32;
+    kani::assume(k >= 1);
+    let mut c = core_with(ime, run, if0, ie0);
+    c.registers.ip = ip as u32;
+    c.registers.sp = 0xdff0;
+    c.registers.cycles = p;
+    g::reset(k, 0, ip.wrapping_add(1) as u32);
+    unsafe { mon::ENTERED_CACHE = false; mon::ENTERED_INTERP = false; mon::TAG_OK = true; mon::LOOKUPS = 0; mon::EXPECTED_BANK = 1; }
+    c.update();
+    let delivered = unsafe { g::DELIVERED };
+    let calls = unsafe { g::DELIVER_CALLS };
+    let cy = c.registers.cycles;
+    let pending = if0 & ie0;
+    vassert!(calls == 1, "C09.delivered_exactly_once_per_step");
+    vassert!(!unsafe { g::SAMPLED_EARLY }, "C09.devices_caught_up_before_interrupts_sampled");
+    vassert!(delivered >= 4, "C09.every_step_advances_time");
+    if run == 0 {
+      vassert!(delivered == 4 * (p + k) as usize, "C09.run.delivered_is_4x_consumed");
+      // instruction-stepped build promotes a pending EI after the instruction; block-stepped build has no pending state to promote
+      let ime_after = if cfg!(feature = "jit") { ime } else if ime == 1 { 2 } else { ime };
+      let dispatched = pending != 0 && ime_after == 2;
+      vassert!(cy == if dispatched { 5 } else { 0 }, "C09.run.dispatch_leaves_five_cycles_pending");
+      #[cfg(feature = "jit")]
+      { vassert!(c.last_block_cycle_length == (p + k) as usize, "C09.run.block_cycle_length"); }
+    } else {
+      vassert!(delivered == 4, "C09.halted.one_machine_cycle_per_step");
+      let dispatched = pending != 0 && ime == 2;
+      vassert!(cy == p + if dispatched { 5 } else { 0 }, "C09.halted.cpu_cycles_untouched");
+    }
+    kani::cover!(pending != 0 && run == 0, "reached");
+    core::mem::forget(c);
+  }
+
+  macro_rules! acc {
+    ($name:ident, $ip:expr) => {
+      #[kani::proof]
+      #[kani::unwind(6)]
+      #[kani::stub(crate::system::get_rom_buffer, vstub::stub_get_rom_buffer)]
+      #[kani::stub(crate::mem::create_buffer, vstub::stub_create_buffer)]
+      #[kani::stub(crate::devices::video::lcd::LCD::new, vstub::stub_lcd_new)]
+      #[kani::stub(crate::mem::MemoryAreas::run_clock_cycles, g::mon_clock)]
+      #[kani::stub(crate::devices::io::IO::get_active_interrupts, g::mon_active)]
+      #[kani::stub(crate::interpreter::run_next_op, g::stub_next_op)]
+      #[kani::stub(crate::interpreter::run_code_block, g::stub_block)]
+      #[kani::stub(crate::cache::CodeCache::get_address_for_ip, mon::get_address_for_ip)]
+      #[kani::stub(crate::cache::CodeCache::translate_code_block, mon::translate_code_block)]
+      #[kani::stub(crate::cache::CodeCache::call, g::stub_call)]
+      fn $name() { accounting($ip); }
+    };
+  }
+  acc!(c09_accounting_rom, 0x0150);
+  acc!(c09_accounting_wram, 0xc100);
+
+  /// `Core::run_code_block` tail against its specification, the same in both builds (this is C04's glue obligation):
+  /// status -> run state / master enable, cycles delivered, pending cycles, and which executor was entered.
+  fn tail(ip: u16) {
+    let ime: u8 = kani::any::<u8>() % 3;
+    let if0: u8 = kani::any::<u8>() & 0x1f;
+    let ie0: u8 = kani::any::<u8>() & 0x1f;
+    let p: u32 = (kani::any::<u8>() & 0x3f) as u32;
+    let k: u32 = kani::any::<u8>() as u32;
+    kani::assume(k >= 1);
+    let status: u8 = kani::any();
+    let next: u16 = kani::any();
+    let mut c = core_with(ime, 0, if0, ie0);
+    c.registers.ip = ip as u32;
+    c.registers.sp = 0xdff0;
+    c.registers.cycles = p;
+    g::reset(k, status, next as u32);
+    unsafe { mon::ENTERED_CACHE = false; mon::ENTERED_INTERP = false; mon::TAG_OK = true; mon::LOOKUPS = 0; mon::EXPECTED_BANK = 1; }
+    c.run_code_block();
+    // specification of the tail
+    let run_want = match status { 1 => 2, 2 => 1, _ => 0 };                 // STOP -> stop, HALT -> halt
+    let ime_mid = match status { 3 => 0, 4 | 5 => 2, _ => ime };            // DI / EI / RETI
+    let pending = if0 & ie0;
+    let woke = pending != 0;
+    let dispatched = woke && ime_mid == 2;
+    vassert!(run_of(&c) == if woke { 0 } else { run_want }, "C04.tail.run_state");
+    vassert!(ime_of(&c) == if dispatched { 0 } else { ime_mid }, "C04.tail.master_enable");
+    vassert!(unsafe { g::DELIVERED } == 4 * (p + k) as usize && unsafe { g::DELIVER_CALLS } == 1, "C04.tail.clocks_delivered");
+    vassert!(c.last_block_cycle_length == (p + k) as usize, "C04.tail.block_cycle_length");
+    let (cy, ip1, sp1) = (c.registers.cycles, c.registers.ip, c.registers.sp);
+    vassert!(cy == if dispatched { 5 } else { 0 }, "C04.tail.pending_cycles");
+    if dispatched {
+      vassert!(ip1 == vector_of(pending).0 && sp1 == 0xdfee, "C04.tail.dispatch");
+      let mp = &c.memory as *const MemoryAreas;
+      let pushed = (crate::mem::memory_read_byte(mp, 0xdfee) as u16) | ((crate::mem::memory_read_byte(mp, 0xdfef) as u16) << 8);
+      vassert!(pushed == next, "C04.tail.return_address");
+    } else {
+      vassert!(ip1 == next as u32 && sp1 == 0xdff0, "C04.tail.no_dispatch");
+    }
+    // executor selection: translated code only for ROM addresses, and only in the recompiler build
+    let (cache_in, interp_in) = unsafe { (mon::ENTERED_CACHE, mon::ENTERED_INTERP) };
+    if cfg!(feature = "jit") && ip < 0x8000 { vassert!(cache_in && !interp_in, "C04.tail.rom_uses_translation"); }
+    else { vassert!(!cache_in && interp_in, "C04.tail.non_rom_uses_interpreter"); }
+    kani::cover!(dispatched, "reached");
+    core::mem::forget(c);
+  }
+  macro_rules! tailh {
+    ($name:ident, $ip:expr) => {
+      #[cfg(verif_c04)]
+      #[kani::proof]
+      #[kani::unwind(6)]
+      #[kani::stub(crate::system::get_rom_buffer, vstub::stub_get_rom_buffer)]
+      #[kani::stub(crate::mem::create_buffer, vstub::stub_create_buffer)]
+      #[kani::stub(crate::devices::video::lcd::LCD::new, vstub::stub_lcd_new)]
+      #[kani::stub(crate::mem::MemoryAreas::run_clock_cycles, g::mon_clock)]
+      #[kani::stub(crate::interpreter::run_code_block, g::stub_block)]
+      #[kani::stub(crate::cache::CodeCache::get_address_for_ip, mon::get_address_for_ip)]
+      #[kani::stub(crate::cache::CodeCache::translate_code_block, mon::translate_code_block)]
+      #[kani::stub(crate::cache::CodeCache::call, g::stub_call)]
+      fn $name() { tail($ip); }
+    };
+  }
+  tailh!(c04_tail_rom_low, 0x0150);
+  tailh!(c04_tail_rom_high, 0x7ff0);
+  tailh!(c04_tail_wram, 0xc100);
+  tailh!(c04_tail_hram, 0xff80);
+
+  #[kani::proof]
+  #[kani::unwind(6)]
+  #[kani::stub(crate::system::get_rom_buffer, vstub::stub_get_rom_buffer)]
+  #[kani::stub(crate::mem::create_buffer, vstub::stub_create_buffer)]
+  #[kani::stub(crate::devices::video::lcd::LCD::new, vstub::stub_lcd_new)]
+  #[kani::stub(crate::mem::MemoryAreas::run_clock_cycles, g::mon_clock)]
+  #[kani::stub(crate::interpreter::run_next_op, g::stub_next_op)]
+  #[kani::stub(crate::interpreter::run_code_block, g::stub_block)]
+  #[kani::stub(crate::cache::CodeCache::get_address_for_ip, mon::get_address_for_ip)]
+  #[kani::stub(crate::cache::CodeCache::translate_code_block, mon::translate_code_block)]
+  #[kani::stub(crate::cache::CodeCache::call, g::stub_call)]
+  fn c09_witness_must_fail() {
+    let mut c = core_with(kani::any(), 0, kani::any(), kani::any());
+    c.registers.sp = 0xdff0;
+    g::reset(1, 0, 0x151);
+    c.update();
+    core::mem::forget(c);
+    assert!(false, "C09.witness");
+  }
+  // VERIF-END verif_c09
+}
